@@ -371,8 +371,14 @@ def check_termination(obs):
         out.append(('close', 'callback-hang', 'a callback never returned (watchdog)'))
         return out
 
+    progress = {side: rx_progress(obs, side) for side in ('A', 'P')}
+    # an endpoint with an idle time may legitimately give up on a silent or slow
+    # peer and close before the handshake completes (C14); then completion of
+    # transfers and the peer's SESS_TERM cannot be demanded
+    for side in ('A', 'P'):
+        if plan['cfg'][side].get('idle_time') and side in obs.tcp_close:
+            graceful = False
     if graceful and any_term and established['A'] and established['P']:
-        progress = {side: rx_progress(obs, side) for side in ('A', 'P')}
         for side in ('A', 'P'):
             peer = OTHER[side]
             # (c) exactly one each, REPLY iff decided after reading the peer's
